@@ -1,5 +1,61 @@
 #![warn(unsafe_op_in_unsafe_fn)]
 
+// ---- verification hooks (guard: --cfg futures_buffered_verif); add-only, inert when the guard is off ----
+// A module named like an extern crate shadows that crate for the `use` paths of this file, so the
+// original import lines below stay untouched and simply resolve to these when the guard is on.
+#[cfg(futures_buffered_verif)]
+mod alloc {
+    pub(super) mod alloc {
+        pub(crate) use ::alloc::alloc::{handle_alloc_error, Layout};
+        pub(crate) unsafe fn alloc(layout: Layout) -> *mut u8 {
+            let p = unsafe { ::alloc::alloc::alloc(layout) };
+            crate::verif::block_alloc(p, layout.size());
+            p
+        }
+        pub(crate) unsafe fn dealloc(p: *mut u8, layout: Layout) {
+            // the harness may take over the block (deferred free) so that a later use is observable
+            if !crate::verif::block_release(p, layout.size(), layout.align()) {
+                unsafe { ::alloc::alloc::dealloc(p, layout) }
+            }
+        }
+    }
+}
+#[cfg(all(futures_buffered_verif, loom))]
+mod core {
+    pub(super) use ::core::{marker, mem, ptr, task};
+    pub(super) mod sync {
+        pub(crate) mod atomic {
+            pub(crate) use loom::sync::atomic::{fence, AtomicUsize, Ordering};
+        }
+    }
+}
+#[cfg(all(futures_buffered_verif, loom))]
+mod spin {
+    pub(super) mod mutex {
+        pub(crate) struct SpinMutex<T>(loom::sync::Mutex<T>);
+        impl<T> SpinMutex<T> {
+            pub(crate) fn new(t: T) -> Self {
+                Self(loom::sync::Mutex::new(t))
+            }
+            pub(crate) fn lock(&self) -> loom::sync::MutexGuard<'_, T> {
+                self.0.lock().unwrap()
+            }
+        }
+    }
+}
+/// Canary for the loom build: a loom-tracked cell in the header that every function touching the
+/// block reads and that is written once just before the block is destroyed. loom then checks, per
+/// schedule, that every use of the block happens-before its release.
+#[cfg(all(futures_buffered_verif, loom))]
+unsafe fn verif_canary_read(p: *const WakerHeader) {
+    unsafe { (*p).verif_canary.with(|_| ()) }
+}
+#[cfg(all(futures_buffered_verif, loom))]
+unsafe fn verif_canary_write(p: *const WakerHeader) {
+    unsafe { (*p).verif_canary.with_mut(|_| ()) }
+}
+// ---- end of verification hooks preamble ----
+
 use alloc::alloc::{dealloc, handle_alloc_error, Layout};
 use cordyceps::{
     mpsc_queue::{Links, TryDequeueError},
@@ -55,6 +111,8 @@ pub(crate) struct WakerListInner {
 
 pub(crate) struct WakerHeader {
     strong: AtomicUsize,
+    #[cfg(all(futures_buffered_verif, loom))]
+    verif_canary: loom::cell::UnsafeCell<()>,
     waker: DiatomicWaker,
     len: usize,
     queue: MpscQueue<WakerItem>,
@@ -113,6 +171,8 @@ impl WakerList {
     ///
     /// Safety: index must be within capacity
     pub(crate) unsafe fn push(&self, index: usize) {
+        #[cfg(all(futures_buffered_verif, loom))]
+        unsafe { verif_canary_read(self.ptr.as_ptr()) };
         let queue = unsafe { &*ptr::addr_of!((*self.ptr.as_ptr()).queue) };
         let slot = unsafe { self.slice_start().add(index) };
 
@@ -126,6 +186,8 @@ impl WakerList {
 
     /// Register the waker
     pub(crate) fn register(&mut self, waker: &Waker) {
+        #[cfg(all(futures_buffered_verif, loom))]
+        unsafe { verif_canary_read(self.ptr.as_ptr()) };
         // Safety:
         // Diatomic waker requires we do not concurrently run
         // "register", "unregister", and "wait_until".
@@ -153,6 +215,8 @@ impl WakerList {
     /// Note that this is unsafe as it required mutual exclusion (only one
     /// thread can call this) to be guaranteed elsewhere.
     pub(crate) unsafe fn pop(&self) -> ReadySlot<(usize, ManuallyDrop<Waker>)> {
+        #[cfg(all(futures_buffered_verif, loom))]
+        unsafe { verif_canary_read(self.ptr.as_ptr()) };
         let queue = unsafe { &*ptr::addr_of!((*self.ptr.as_ptr()).queue) };
         match unsafe { queue.try_dequeue_unchecked() } {
             Ok(slot) => {
@@ -208,12 +272,18 @@ mod slot {
 
         // Increment the reference count of the arc to clone it.
         unsafe fn clone_waker(waker: *const ()) -> RawWaker {
+            #[cfg(futures_buffered_verif)]
+            crate::verif::vtable_entry(0, waker, unsafe { meta_raw(waker.cast::<WakerItem>().cast_mut()) }.cast());
+            #[cfg(all(futures_buffered_verif, loom))]
+            unsafe { super::verif_canary_read(meta_raw(waker.cast::<WakerItem>().cast_mut())) };
             unsafe { meta_ref(waker.cast()).inc_strong() };
             RawWaker::new(waker, VTABLE)
         }
 
         // We don't need ownership. Just wake_by_ref and drop the waker
         unsafe fn wake(waker: *const ()) {
+            #[cfg(futures_buffered_verif)]
+            crate::verif::vtable_entry(1, waker, unsafe { meta_raw(waker.cast::<WakerItem>().cast_mut()) }.cast());
             unsafe {
                 wake_by_ref(waker);
                 drop_waker(waker);
@@ -223,6 +293,10 @@ mod slot {
         // Find the `WakerHeader` and push the current index value into it,
         // then call the stored waker to trigger a poll
         unsafe fn wake_by_ref(waker: *const ()) {
+            #[cfg(futures_buffered_verif)]
+            crate::verif::vtable_entry(2, waker, unsafe { meta_raw(waker.cast::<WakerItem>().cast_mut()) }.cast());
+            #[cfg(all(futures_buffered_verif, loom))]
+            unsafe { super::verif_canary_read(meta_raw(waker.cast::<WakerItem>().cast_mut())) };
             let slot = waker.cast::<WakerItem>();
 
             let node = unsafe { &*slot };
@@ -240,6 +314,10 @@ mod slot {
 
         // Decrement the reference count of the Arc on drop
         unsafe fn drop_waker(waker: *const ()) {
+            #[cfg(futures_buffered_verif)]
+            crate::verif::vtable_entry(3, waker, unsafe { meta_raw(waker.cast::<WakerItem>().cast_mut()) }.cast());
+            #[cfg(all(futures_buffered_verif, loom))]
+            unsafe { super::verif_canary_read(meta_raw(waker.cast::<WakerItem>().cast_mut())) };
             let meta = unsafe { meta_ref(waker.cast()) };
             if meta.dec_strong() {
                 unsafe {
@@ -360,6 +438,8 @@ fn slice_offset() -> usize {
 /// # Safety:
 /// The pointer must point to a currently allocated [`WakerList`].
 unsafe fn drop_inner(p: *mut WakerHeader, capacity: usize) {
+    #[cfg(all(futures_buffered_verif, loom))]
+    unsafe { verif_canary_write(p) };
     let layout = WakerList::layout(capacity);
 
     // SAFETY: the pointer points to an aligned and init instance of `WakerHeader`
@@ -371,6 +451,8 @@ unsafe fn drop_inner(p: *mut WakerHeader, capacity: usize) {
 
 impl Drop for WakerList {
     fn drop(&mut self) {
+        #[cfg(all(futures_buffered_verif, loom))]
+        unsafe { verif_canary_read(self.ptr.as_ptr()) };
         let meta = unsafe { &*self.ptr.as_ptr() };
         if meta.dec_strong() {
             unsafe { drop_inner(self.ptr.as_ptr().cast(), meta.len) }
@@ -426,6 +508,8 @@ impl WakerList {
                 meta,
                 WakerHeader {
                     strong: AtomicUsize::new(1),
+                    #[cfg(all(futures_buffered_verif, loom))]
+                    verif_canary: loom::cell::UnsafeCell::new(()),
                     len: cap,
                     waker: DiatomicWaker::new(),
                     queue: MpscQueue::new_with_stub(NonNull::new_unchecked(stub)),
